@@ -226,6 +226,17 @@ func genInbox(r *Rng, prop string, k int) *RunSpec {
 		case 1:
 			objs = []interface{}{st.Dave, embedActor(st.Alice.ID)}
 		}
+		if len(actorIDs) >= 2 && r.Intn(3) == 0 {
+			// one of the followers cannot be fetched right now: the answer still goes to the others
+			if st.W.Fate == nil {
+				st.W.Fate = map[string]string{}
+			}
+			who := actorIDs[len(actorIDs)-1]
+			if r.Intn(3) == 0 {
+				who = actorIDs[r.Intn(len(actorIDs))]
+			}
+			st.W.Fate[who] = Pick(r, []string{"unreachable", "nonjson", "trailing", "unknowntype"})
+		}
 		if len(actorIDs) >= 2 && r.Bool() {
 			// several followers, answered automatically; the application knows the inbox of some of them already
 			objs = []interface{}{st.Alice.ID}
